@@ -1,0 +1,7 @@
+//go:build !verif
+
+package backtrace
+
+import df "github.com/awslabs/ar-go-tools/analysis/dataflow"
+
+func verifVisit(_ string, _ *df.VisitorNode, _ *df.VisitorNode) {}
